@@ -1193,7 +1193,7 @@ func main() {
 	lap("snappy_purego_child")
 	r.Extra["snappy_variants"] = "amd64 assembly (this binary) and pure Go (child built with -tags noasm)"
 
-	finish(rule, "Every operation's observable result (BlockGet bytes+trusted / error class, BlockLength, LoadBlockIndex walk list) is compared between the real chain.BlockDB and the Lean model, the append positions / queue / cache sizes after every operation, and the directory contents (index + every data file, main and oldat) after every Close; independently a plain Go map decides the property itself (stored bytes come back with the latest trusted flag unless marked invalid or out of configured retention — then an error, never other bytes; after a restart exactly the stored non-invalid blocks are listed once with height/size/txcount). snappy.Encode output is compared byte-for-byte with the model's encoder, both decoders run on both outputs and on mutated encodings.")
+	finish(rule, "Every operation's observable result (BlockGet bytes+trusted / error class, BlockLength, LoadBlockIndex walk list) is compared between the real chain.BlockDB and the Lean model, the append positions / queue / cache sizes after every operation, and the directory contents (index + every data file, main and oldat) after every Close; independently a plain Go map decides the property itself (stored bytes come back with the latest trusted flag unless marked invalid or out of configured retention — then an error, never other bytes; after a restart exactly the stored non-invalid blocks are listed once with height/size/txcount, and no block that was marked invalid on disk and not added again; BlockLength of a stored block is its size for both values of decode_if_needed). Corpus-only operations outside the store: poke (overwrite bytes of a closed store's file; tie only afterwards) and stash (move a data file of the closed store, e.g. the current one, into oldat/: LoadBlockIndex must bring it back, every stored block must still be returned). snappy.Encode output is compared byte-for-byte with the model's encoder, both decoders run on both outputs and on mutated encodings.")
 }
 
 func (x *runner) replaySnappy(c *snappyCase) {
